@@ -10,7 +10,8 @@ from props import _enc
 
 PID = "C20"
 RULE = ("case = compressed stream of a generated plaintext (all families plus geometric/Fibonacci-weighted ones that "
-        "push plain Huffman depth towards and beyond 20); every table used by >= 1 group of every block is compared "
+        "push plain Huffman depth towards and beyond 20, and 300-890 KB low-entropy blocks over 2-5 letters in which one "
+        "table codes a symbol >= 65536 times); every table used by >= 1 group of every block is compared "
         "with an independent package-merge optimum for the symbol counts coded with it under the table's own maximum "
         "length; non-trivial = table with >= 3 distinct code lengths; distinct by (frequency vector hash)")
 
@@ -80,7 +81,12 @@ def fibdata(k, scale, seed):
 def strategy(mt):
     fibcase = st.tuples(st.integers(8, 27), st.integers(1, 3), st.integers(0, 10**6), st.integers(1, 9)).map(
         lambda t: {"segs": [["lit", ""]], "fib": [t[0], t[1], t[2]], "level": t[3], "seq": False, "n": 2, "sched": None})
-    return st.one_of(_enc.case_strategy(mt, boundary_weight=0), _enc.case_strategy(mt, boundary_weight=0), fibcase)
+    # large low-entropy blocks: one table codes the same symbol >= 2^16 times (counts that no longer fit 16 bits)
+    heavy = st.tuples(st.integers(2, 5), st.sampled_from([300000, 520000, 700000, 890000]), st.integers(0, 10**6),
+                      st.sampled_from([5, 7, 9, 9]), st.sampled_from([1, 1, 3, 9])).map(
+        lambda t: {"segs": [["lit", ""]], "heavy": list(t[:3]) + [t[4]], "level": t[3], "seq": False, "n": 4, "sched": None})
+    return st.one_of(_enc.case_strategy(mt, boundary_weight=0), _enc.case_strategy(mt, boundary_weight=0), fibcase,
+                     _enc.case_strategy(mt, boundary_weight=0), _enc.case_strategy(mt, boundary_weight=0), fibcase, heavy)
 
 
 def make_eval(exe):
@@ -91,6 +97,11 @@ def make_eval(exe):
             if k > 24:
                 scale = 1
             c["segs"] = [["lit", fibdata(k, scale, sd).hex()]]
+        if case.get("heavy"):
+            import random
+            k, size, sd, skew = case["heavy"]
+            rr = random.Random(sd)
+            c["segs"] = [["lit", bytes(rr.choices(range(97, 97 + k), weights=[skew ** i for i in range(k)], k=size)).hex()]]
         data, r, info, out = _enc.compress_and_inspect(exe, c, lens=True, freq=True)
         if r.timeout:
             stats.inconclusive += 1
@@ -117,6 +128,8 @@ def make_eval(exe):
                         labels.append("length-limit-binds(package-merge decides)")
                     if 0 in freq:
                         labels.append("zero-frequency-symbols")
+                    if max(freq) >= 65536:
+                        labels.append("symbol coded >= 65536 times by one table")
                     stats.add(core.fp(freq, L), nd >= 3, labels,
                               {"block": bi, "table": ti, "alpha": len(lens), "maxlen": L, "cost": cost, "opt": opt,
                                "nsyms": sum(freq)} if nd >= 3 else None)
